@@ -29,6 +29,24 @@ Theorem convert_temperature_refusal_changes_nothing (s : iso RNum) u vb e :
   outcome (convert_temperature RNum s u vb) = Some e -> state_after (convert_temperature RNum s u vb) = s.
 Proof. unfold convert_temperature. intro H. crush. Qed.
 
+Theorem convert_material_refusal_changes_nothing (s : iso RNum) b u vb e :
+  outcome (convert_material RNum s b u vb) = Some e -> state_after (convert_material RNum s b u vb) = s.
+Proof. unfold convert_material. intro H. crush. Qed.
+
+(* an omitted unit with an unchanged (or omitted) mode / basis is a no-op, for ALL states *)
+Lemma ostr_eqb_refl a : ostr_eqb a a = true.
+Proof. apply ostr_eqb_eq; reflexivity. Qed.
+Theorem omitted_unit_is_noop (s : iso RNum) vb :
+  (forall m, m = None \/ m = pressure_mode s -> ostr_truthy (pressure_mode s) = true -> convert_pressure RNum s m None vb = SOk s)
+  /\ (forall b, b = None \/ b = loading_basis s -> ostr_truthy (loading_basis s) = true -> convert_loading RNum s b None vb = SOk s)
+  /\ (forall b, b = None \/ b = material_basis s -> ostr_truthy (material_basis s) = true -> convert_material RNum s b None vb = SOk s).
+Proof.
+  repeat split; intros x [-> | ->] Ht;
+  unfold convert_pressure, convert_loading, convert_material, srun, sbindc;
+  cbn [ostr_truthy negb]; rewrite ?Ht; cbn [negb]; rewrite ?ostr_eqb_refl; cbn [andb negb ostr_truthy];
+  rewrite ?ostr_eqb_refl; reflexivity.
+Qed.
+
 (* convert() = pressure; material; loading, stopping at the first refusal and keeping the earlier steps *)
 Theorem convert_is_sequence (s : iso RNum) pm pu lb lu mb mu vb :
   convert RNum s pm pu lb lu mb mu vb =
@@ -49,7 +67,10 @@ Lemma convert_temperature_step rp rl rm tk T a m cp cl cb li pi vb (tk' : bool) 
   exists T', convert_temperature RNum (mk_state rp rl rm tk T a m cp cl cb li pi) (tunit_label tk') vb
              = SOk (mk_state rp rl rm tk' T' a m cp cl cb li pi) /\ kelvin_of tk' T' = kelvin_of tk T.
 Proof.
-  destruct tk, tk'; unfold convert_temperature, mk_state, srun, sbind; cbn [raw_temperature temperature_unit tunit_label].
+  destruct tk, tk'; unfold convert_temperature, mk_state, srun, sbind, sbindc; cbn [raw_temperature temperature_unit tunit_label];
+  repeat match goal with |- context [(ostr_truthy ?a && ostr_contains ?b ?c)%bool] =>
+    let v := eval vm_compute in (ostr_truthy a && ostr_contains b c)%bool in
+    change (ostr_truthy a && ostr_contains b c)%bool with v end; cbv iota beta.
   - rewrite c_temperature_same_K. exists T. split; reflexivity.
   - rewrite (c_temperature_K_to_C T "°C" eq_refl). exists (T - 273.15). split; [reflexivity|unfold kelvin_of; lra].
   - rewrite (c_temperature_C_to_K T "°C" eq_refl). exists (T + 273.15). split; [reflexivity|unfold kelvin_of; lra].
@@ -213,31 +234,20 @@ End History.
 (* ------------------------------------------------------------------ deviations of the unchanged tree *)
 Definition st0 := mk_state (PAbs bar) (LMolar mmol) (MMass g) true 77 (ads_full 101325 28 0.03 0.0002) (mat_full 2 60) [1; 2] [3; 4] [false; false] None None.
 
-(* F1: an omitted unit with an unchanged mode/basis is accepted and sets the unit label to None *)
-Theorem omitted_unit_corrupts_label_refuted :
-  (exists s', convert_pressure RNum st0 (Some "absolute"%string) None false = SOk s' /\ pressure_unit s' = None /\ valid_labels s' = false)
-  /\ (exists s', convert_loading RNum st0 (Some "molar"%string) None false = SOk s' /\ loading_unit s' = None /\ valid_labels s' = false)
-  /\ (exists s', convert_material RNum st0 (Some "mass"%string) None false = SOk s' /\ material_unit s' = None /\ valid_labels s' = false).
-Proof. repeat split; eexists; (split; [unfold st0; eval_model; reflexivity|split; reflexivity]). Qed.
-
-(* F2: convert_temperature stores the caller's spelling; 'C' is then a label the constructor rejects *)
-Theorem temperature_alias_label_refuted :
-  exists s', convert_temperature RNum st0 (Some "C"%string) false = SOk s' /\ temperature_unit s' = Some "C"%string /\ valid_labels s' = false.
-Proof. eexists; split; [unfold st0; eval_model; reflexivity|split; reflexivity]. Qed.
-
-(* F3: in fraction mode a material basis change is two assignments; when the second conversion is refused
-   (adsorbate without liquid density) the first one stays applied: data changed, labels not *)
-Definition st_frac := mk_state (PAbs bar) LFraction (MMass g) true 77 (mkAds RNum (Some 101325) (Some 28) None None None None) (mat_full 2 60) [1] [3] [false] None None.
-Theorem material_then_loading_not_atomic_refuted :
-  exists e s', convert_material RNum st_frac (Some "volume"%string) (Some "cm3"%string) false = SErr e s'
-    /\ col_l s' <> col_l st_frac /\ material_basis s' = material_basis st_frac.
+(* convert_temperature stores the normalised label, whatever the spelling of celsius *)
+Theorem temperature_label_normalised (s : iso RNum) u vb s' :
+  is_celsius u = true -> convert_temperature RNum s (Some u) vb = SOk s' -> temperature_unit s' = Some "°C"%string.
 Proof.
-  eexists; eexists; split; [unfold st_frac; eval_model; reflexivity|].
-  split; [|reflexivity]. cbn. intro H; injection H. unfold Q2R; simpl; lra.
+  intros Hc. unfold convert_temperature, srun, sbindc, sbind.
+  assert (Ht : ostr_truthy (Some u) = true) by (destruct u; [discriminate Hc|reflexivity]).
+  rewrite Ht. cbn [ostr_lower option_map ostr_contains andb]. unfold is_celsius in Hc. rewrite Hc.
+  destruct (c_temperature RNum (raw_temperature s) (temperature_unit s) (Some "°C"%string)); [|discriminate].
+  intro H; injection H as <-. reflexivity.
 Qed.
 
-(* F4: in fraction mode any material unit string is accepted for the same basis *)
-Theorem fraction_material_unit_unchecked_refuted :
+Definition st_frac := mk_state (PAbs bar) LFraction (MMass g) true 77 (mkAds RNum (Some 101325) (Some 28) None None None None) (mat_full 2 60) [1] [3] [false] None None.
+(* in fraction mode any material unit string is accepted for the same basis (the constructor does not check it either) *)
+Remark fraction_material_unit_unchecked :
   exists s', convert_material RNum st_frac (Some "mass"%string) (Some "bogus"%string) false = SOk s' /\ material_unit s' = Some "bogus"%string.
 Proof. eexists; split; [unfold st_frac; eval_model; reflexivity|reflexivity]. Qed.
 
